@@ -23,6 +23,8 @@ def ev_expr(e, x):
         return math.cos(ev_expr(e['a'], x))
     if k == 'exp':
         return math.exp(ev_expr(e['a'], x))
+    if k == 'ind':
+        return 1.0 if (e['lo'][0] / e['lo'][1] <= x[e['i']] < e['hi'][0] / e['hi'][1]) else 0.0
     raise KeyError(k)
 
 
